@@ -330,7 +330,8 @@ func mergeResult(a, b *trace.Result) *trace.Result {
 		}
 		a.SigCounts[k] += v
 	}
-	if len(a.Samples) < 6 {
+	if len(a.Samples) < 4 {
+		// shard 0 contributes all of its samples (two per layer), later shards fill up
 		a.Samples = append(a.Samples, b.Samples...)
 	}
 	a.FPs = append(a.FPs, b.FPs...)
@@ -683,8 +684,8 @@ func run(prop, tier string, seed int64) int {
 		}
 	}
 	samples := total.Samples
-	if len(samples) > 6 {
-		samples = samples[:6]
+	if len(samples) > 10 {
+		samples = samples[:10]
 	}
 	if len(samples) == 0 {
 		samples = []any{"(no sample recorded)"}
@@ -714,10 +715,12 @@ func run(prop, tier string, seed int64) int {
 		"coverage": cov, "assumptions": m.Assumptions, "wall_s": time.Since(t0).Seconds(), "violations": violations,
 	}
 	_ = os.MkdirAll(filepath.Join(verifDir, "evidence"), 0o755)
-	eb, _ := json.MarshalIndent(ev, "", " ")
-	eb = bytes.ReplaceAll(eb, []byte("\\u003c"), []byte("<"))
-	eb = bytes.ReplaceAll(eb, []byte("\\u003e"), []byte(">"))
-	eb = bytes.ReplaceAll(eb, []byte("\\u0026"), []byte("&"))
+	var ebuf bytes.Buffer
+	enc := json.NewEncoder(&ebuf)
+	enc.SetEscapeHTML(false)
+	enc.SetIndent("", " ")
+	_ = enc.Encode(ev)
+	eb := bytes.TrimRight(ebuf.Bytes(), "\n")
 	_ = os.WriteFile(filepath.Join(verifDir, "evidence", prop+".json"), append(eb, '\n'), 0o644)
 
 	fmt.Printf("%s %s seed=%d: cases=%d evaluations=%d distinct=%d nontrivial=%d findings=%d (known %d) violations=%d inconclusive=%d wall=%.1fs\n",
